@@ -147,6 +147,85 @@ func (c *Ctx) rtLine(t *Tree) {
 	c.fn("rt", string(root), t.Token(), "s"+hx(text), pres, eq, pres2)
 }
 
+// serContainer / fmtContainer / rtContainer: the same records as serLine-style checks, for a container that
+// came into being through another operation (parsed from a lenient spelling, cloned, mapped, ...).
+func (c *Ctx) rtContainer(v any) {
+	root := byte('L')
+	if _, ok := v.(at.Object); ok {
+		root = 'O'
+	}
+	t := treeOf(v)
+	var text, pres, eq, pres2 string
+	func() {
+		defer func() {
+			if r := recover(); r != nil {
+				pres = "panic:" + hx(fmt.Sprint(r))
+			}
+		}()
+		eq, pres2 = "-", "-"
+		if root == 'L' {
+			l := v.(at.List)
+			text = l.String()
+			pres = obsParse(root, text)
+			if p, err := at.ParseList(text); err == nil && p != nil {
+				eq = btok(p.Equals(l) && l.Equals(p))
+				pres2 = obsParse(root, p.String())
+			}
+		} else {
+			o := v.(at.Object)
+			text = o.String()
+			pres = obsParse(root, text)
+			if p, err := at.ParseObject(text); err == nil && p != nil {
+				eq = btok(p.Equals(o) && o.Equals(p))
+				pres2 = obsParse(root, p.String())
+			}
+		}
+	}()
+	c.fn("rt", string(root), t.Token(), "s"+hx(text), pres, eq, pres2)
+}
+
+func (c *Ctx) fmtContainer(v any, n int) {
+	t := treeOf(v)
+	obs := guard(func() string {
+		if l, ok := v.(at.List); ok {
+			return "s" + hx(l.FormatString(n))
+		}
+		return "s" + hx(v.(at.Object).FormatString(n))
+	})
+	c.fn("fmt", t.Token(), itok(n), obs)
+}
+
+// lenientDocs: documents the lenient parser accepts although they are not JSON (the results are ordinary
+// containers: what String() prints for them must be JSON again).
+var lenientDocs = []string{
+	`[.5, 5., +1.5, 00.5, 0x1p-2, 1_0.5, -.25, 1e5, 1E+5, 0x10, 010, +5, 1_000, 0b101, 0o17, t, T, True, f, FALSE]`,
+	`{"a": .5, "b": 5., "c": +2.5, "d": 01.5, "e": 0x1.8p1, "f": [ .75 ], "g": t}`,
+	`[1 2, "a"xyz, [ 3 ] , ]`,
+	`{"k":"v" junk, "l":[1]"m":2, "n":{},}`,
+	`["\u00e9\/\n", "\ud83d\ude00", "tab\there"]`,
+	`{"s\"q": "x\"}", "t": "\\"}`,
+	"[1.0, 2.50, -0.0, 100e-2, 0.1e1]",
+}
+
+func (c *Ctx) parsedSources() []any {
+	var out []any
+	for _, d := range lenientDocs {
+		if d[0] == '[' {
+			if l, err := at.ParseList(d); err == nil {
+				out = append(out, l, l.Clone(), l.SubList(0, 0), l.Map(func(i int, v any) any { return v }), l.Filter(func(any) bool { return true }))
+				if l.Count() > 1 {
+					out = append(out, at.NewList(l.Get(0), l.Get(1)), l.Concat(l))
+				}
+			}
+		} else {
+			if o, err := at.ParseObject(d); err == nil {
+				out = append(out, o, o.Clone(), o.Merge(at.NewObject()), o.Values(), o.Map(func(k string, v any) any { return v }))
+			}
+		}
+	}
+	return out
+}
+
 func list1(x *Tree) *Tree { return &Tree{K: '[', Xs: []*Tree{x}} }
 func obj1(k string, x *Tree) *Tree {
 	return &Tree{K: '{', Keys: []string{k}, Xs: []*Tree{x}}
@@ -246,6 +325,9 @@ func runC01(c *Ctx) {
 	}
 	c.omoList("C01")
 	c.omoObj("C01")
+	for _, v := range c.parsedSources() {
+		c.rtContainer(v)
+	}
 	// long strings and long lists
 	long := make([]*Tree, 1100)
 	for i := range long {
@@ -496,6 +578,12 @@ func runC03(c *Ctx) {
 	for _, doc := range []string{`{"a":[1]"b":2}`, `{"a":{}"b":2}`, `{"a":[1] "b":2}`, `{"a":[1]x}`, `{"a":[1],}`, `{"a":[1]}}`, `[[1]2]`, `[{}"x"]`, `{"a":[1]:}`} {
 		c.parseLine("LO"[map[bool]int{true: 0, false: 1}[doc[0] == '[']], doc, "-")
 	}
+	// duplicate member names in different spellings: the LAST one wins, whatever the iteration order of the map
+	for rep := 0; rep < 12; rep++ {
+		c.parseLine('O', `{"a":1,"\u0061":2,"b":3,"\u0062":4,"\/":5,"/":6}`, "valid")
+		c.parseLine('O', `{"\u0061":1,"a":2,"x":{"k":1,"\u006b":2,"\u006B":3}}`, "valid")
+		c.parseLine('L', `[{"a":1,"\u0061":2,"a":3},{"":1,"":2}]`, "valid")
+	}
 	// number spellings one by one
 	for _, n := range []string{"0", "-0", "1", "-1", "10", "9223372036854775807", "-9223372036854775808", "9223372036854775808", "-9223372036854775809",
 		"0.0", "-0.0", "1.0", "1e0", "1E0", "1e+0", "1e-0", "0e0", "1.5e300", "1e308", "1.7976931348623157e308", "5e-324", "4.9e-324", "2.4703282292062328e-324", "1e-400",
@@ -571,6 +659,34 @@ func runC04(c *Ctx) {
 			b[r.Intn(len(b))] = byte(r.Intn(256))
 			c.parseLine(root, string(b), "-")
 		}
+	}
+	// state across calls: rejected inputs with text pending, then ordinary documents; results mutated, then parsed again
+	for rep := 0; rep < c.N(20, 200); rep++ {
+		for _, bad := range []string{"[tru", "[1,2", `["ab`, "[12\xff]", "[\"abc\x80\"]", `{"k":tru`, `{"ab`, `{"a":"bc`, "[[1,2", `{"a":[1,`} {
+			c.parseLine("LO"[map[bool]int{true: 0, false: 1}[bad[0] == '[']], bad, "err")
+			c.parseLine('L', "[]", "valid")
+			c.parseLine('L', "[e]", "-")
+			c.parseLine('L', "[5]", "valid")
+			c.parseLine('O', `{"a":1}`, "valid")
+			c.parseLine('O', "{}", "valid")
+		}
+	}
+	c.M.Case("parse-mutate-parse")
+	for rep := 0; rep < 3; rep++ {
+		p1 := c.M.Parse('L', `[[],[ ],{},{"a":[]},"s"]`)
+		if p1 != "" {
+			c.M.Add(c.M.tokVal(c.M.L(p1).Get(0)), gvStr("filled"), gvInt(42))
+			c.M.OSet(c.M.tokVal(c.M.L(p1).Get(2)), gvStr("k"), gvInt(1))
+			c.M.SetTF(p1, "#3.a#0", gvInt(7))
+		}
+		c.M.Parse('L', `[[],[ ],{},{"a":[]},"s"]`)
+		c.M.Parse('O', `{"e":[],"o":{}}`)
+		p2 := c.M.Parse('O', `{"e":[],"o":{}}`)
+		if p2 != "" {
+			c.M.OSetTF(p2, ".e#0", gvInt(1))
+			c.M.OSetTF(p2, ".o.k", gvInt(1))
+		}
+		c.M.Parse('O', `{"e":[],"o":{}}`)
 	}
 	// random bytes
 	for i := 0; i < c.N(2000, 40000); i++ {
@@ -943,6 +1059,10 @@ func runC16(c *Ctx) {
 	}
 	c.omoList("C16")
 	c.omoObj("C16")
+	for _, v := range c.parsedSources() {
+		c.fmtContainer(v, 2)
+		c.fmtContainer(v, 0)
+	}
 	// wide-then-narrow sequences of indents on the same and on different containers
 	for _, seq := range [][]int{{10, 0}, {10, 2, 0, 1}, {4, 4, 2}, {0, 10, 0}, {7, 3, 9, 1}} {
 		for _, n := range seq {
